@@ -15,6 +15,7 @@ import (
 	"fmt"
 	"io"
 	"net"
+	"strings"
 	"sync"
 	"time"
 
@@ -28,7 +29,9 @@ type h2AbortPeer struct {
 	ln     net.Listener
 	mu     sync.Mutex
 	window uint32
-	mode   string // "413" | "rst"
+	mode   string      // uploads: "413" | "rst"; bodiless requests: "resp-cut" | "resp-badfield" (broken response header block)
+	respFs [][2]string // resp-*: the response fields
+	cutAt  int         // resp-*: fields in the HEADERS fragment (the rest goes into a CONTINUATION)
 	exs    []wireEx
 }
 
@@ -69,6 +72,12 @@ func (p *h2AbortPeer) set(window uint32, mode string) {
 	p.mu.Unlock()
 }
 
+func (p *h2AbortPeer) setResp(mode string, fs [][2]string, cutAt int) {
+	p.mu.Lock()
+	p.window, p.mode, p.respFs, p.cutAt, p.exs = 65535, mode, fs, cutAt, nil
+	p.mu.Unlock()
+}
+
 func (p *h2AbortPeer) take() []wireEx {
 	p.mu.Lock()
 	defer p.mu.Unlock()
@@ -84,6 +93,7 @@ func (p *h2AbortPeer) serve(c net.Conn) {
 	}
 	p.mu.Lock()
 	window, mode := p.window, p.mode
+	respFs, cutAt := p.respFs, p.cutAt
 	p.mu.Unlock()
 	fr := http2.NewFramer(c, c)
 	fr.ReadMetaHeaders = hpack.NewDecoder(4096, nil)
@@ -133,6 +143,40 @@ func (p *h2AbortPeer) serve(c net.Conn) {
 			idx[f.StreamID] = len(p.exs)
 			p.exs = append(p.exs, wireEx{ReqFields: fs, HasBody: !f.StreamEnded(), Aborted: !f.StreamEnded()})
 			p.mu.Unlock()
+			path := ""
+			for _, x := range fs {
+				if x[0] == ":path" {
+					path = x[1]
+				}
+			}
+			if f.StreamEnded() && path != "/warm" && (mode == "resp-cut" || mode == "resp-badfield") {
+				// a response header block in two fragments; it is never completed (connection
+				// closed after the HEADERS frame) or ends in a field the client must reject
+				frag := func(fs [][2]string) []byte {
+					hbuf.Reset()
+					for _, x := range fs {
+						henc.WriteField(hpack.HeaderField{Name: x[0], Value: x[1]})
+					}
+					return append([]byte(nil), hbuf.Bytes()...)
+				}
+				f1, f2 := frag(respFs[:cutAt]), frag(respFs[cutAt:])
+				decoded := respFs[:cutAt]
+				if mode == "resp-badfield" {
+					decoded = respFs
+				}
+				upd(f.StreamID, func(w *wireEx) { w.RespFields, w.RespPartial, w.Aborted = decoded, true, false })
+				if fr.WriteHeaders(http2.HeadersFrameParam{StreamID: f.StreamID, BlockFragment: f1, EndHeaders: false}) != nil {
+					return
+				}
+				if mode == "resp-cut" {
+					return // closes the connection
+				}
+				if fr.WriteContinuation(f.StreamID, true, f2) != nil {
+					return
+				}
+				done[f.StreamID] = true
+				continue
+			}
 			if f.StreamEnded() { // the warm-up GET
 				rf := [][2]string{{":status", "200"}, {"content-type", "text/plain; charset=utf-8"}, {"x-warm", "1"}, {"content-length", "7"}}
 				upd(f.StreamID, func(w *wireEx) { w.RespFields = rf; w.RespData = []byte("warm-ok") })
@@ -213,6 +257,57 @@ func h2AbortPairs(r *hk.Run, rng *hk.Rand, count int) {
 		name: "h2", ctor: "X2", url: "https://" + p.ln.Addr().String(),
 		client: func() *req.Client {
 			p.set(cur.window, cur.mode)
+			return req.C().EnableInsecureSkipVerify().EnableForceHTTP2()
+		},
+		reg:  func(string, []respSpec, func(int)) {},
+		hits: func(string) int { return 0 },
+		take: p.take,
+		gen:  gen,
+	})
+}
+
+// h2BrokenRespPairs: a request without body whose response header block arrives in a HEADERS frame
+// without END_HEADERS and is then never completed (the peer closes the connection) or is
+// completed by a CONTINUATION whose last field is malformed (upper-case name).  The header lines
+// that were received and decoded must be in the dump.
+func h2BrokenRespPairs(r *hk.Run, rng *hk.Rand, count int) {
+	p, err := newH2AbortPeer()
+	if err != nil {
+		r.Fail(hk.Failure{Sig: "setup:h2broken", What: "h2 scripted peer could not be started: " + err.Error()})
+		return
+	}
+	defer p.ln.Close()
+	var cur struct {
+		mode string
+		fs   [][2]string
+		cut  int
+	}
+	gen := func(rng *hk.Rand) exSpec {
+		var ex exSpec
+		ex.Method = hk.Pick(rng, []string{"GET", "DELETE"})
+		ex.Path = fmt.Sprintf("/broken%d", rng.Intn(1000))
+		ex.Headers, _ = genHeaders(rng, "X-Q-")
+		ex.BodyKind = "none"
+		hs, _ := genHeaders(rng, "x-r-")
+		fs := [][2]string{{":status", "200"}, {"content-type", "text/plain"}}
+		for _, h := range hs {
+			fs = append(fs, [2]string{strings.ToLower(h[0]), h[1]})
+		}
+		cur.mode = hk.Pick(rng, []string{"resp-cut", "resp-badfield"})
+		cur.cut = rng.Range(1, len(fs))
+		if cur.mode == "resp-badfield" {
+			fs = append(fs, [2]string{"X-Bad-Upper-Case", "v"})
+		}
+		cur.fs = fs
+		ex.Warm, ex.WantErr = true, true
+		ex.Resps = []respSpec{{Status: 200, Framing: "none"}}
+		ex.Shape = fmt.Sprintf("%s+fields%d+cut%d+warm", cur.mode, len(fs), cur.cut)
+		return ex
+	}
+	pairs23(r, rng, count, stack{
+		name: "h2", ctor: "X2", url: "https://" + p.ln.Addr().String(),
+		client: func() *req.Client {
+			p.setResp(cur.mode, cur.fs, cur.cut)
 			return req.C().EnableInsecureSkipVerify().EnableForceHTTP2()
 		},
 		reg:  func(string, []respSpec, func(int)) {},
